@@ -389,12 +389,71 @@ def run_cross(spec):
     return res
 
 
+CHAIN_TASK = """
+channel.send('ready')
+try:
+    channel.receive()
+except EOFError:
+    channel.send('cleanup done')   # the gateway is being taken down: the grace period is used to finish
+"""
+
+
+def chain_terminate(res, rep):
+    """the termination sequence reaches a proxied process exactly like a direct one - also when that proxied gateway
+    itself serves as via= for a further gateway (A <- B via A <- C via B)"""
+    import execnet
+
+    observed = {}
+    for kind in ("popen", "via", "via_that_proxies", "via_of_a_via"):
+        group = execnet.Group()
+        try:
+            if kind == "popen":
+                gw = group.makegateway("popen//id=B")
+            else:
+                group.makegateway("popen//id=A")
+                gw = group.makegateway("popen//via=A//id=B")
+                if kind != "via":
+                    c = group.makegateway("popen//via=B//id=C")
+                    if kind == "via_of_a_via":
+                        gw = c
+            ch = gw.remote_exec(CHAIN_TASK)
+            if ch.receive(20) != "ready":
+                raise RuntimeError("task did not start")
+            t0 = time.monotonic()
+            group.terminate()  # no timeout: nobody is killed, everybody is waited for
+            took = time.monotonic() - t0
+            items = []
+            try:
+                while True:
+                    items.append(ch.receive(20))
+            except EOFError:
+                items.append("EOF")
+            except BaseException as e:  # noqa
+                items.append(type(e).__name__)
+            observed[kind] = (items, took < 4.0)  # (the grace period of a worker that was not told to terminate is 5 s)
+            res.count("control_checks")
+            res.case(core.h64("chain", kind))
+        except BaseException as e:  # noqa
+            observed[kind] = (f"{type(e).__name__}: {str(e)[-200:]}", False)
+        finally:
+            try:
+                group.terminate(2.0)
+            except BaseException:  # noqa
+                pass
+    want = (["cleanup done", "EOF"], True)
+    for kind, got in observed.items():
+        if got != want:
+            res.violation(f"termination-sequence-differs-from-popen:{kind}", f"rep {rep}: (items, prompt) = {got}, direct popen gives {want}")
+
+
 def run_control(spec):
     """wait / kill / close_write reach the proxied process"""
     import execnet
 
     res = Result()
     for rep in range(spec["reps"]):
+        if rep % 5 == 0:
+            chain_terminate(res, rep)
         for action in ("kill", "exit_wait", "close_write", "terminate_hanging", "terminate_hanging_mto"):
             group = execnet.Group()
             try:
